@@ -740,3 +740,163 @@ def c15_closure_step(run):
         run.obligation(name, "out-of-subset", role=AUX, detail=str(e))
         return
     run.obligation(name, "proved", role=AUX, backend="free non-commutative semiring", detail="2- and 3-node blocks with symbolic non-commuting entries: the result is Lehmann's elimination with factors in path order, plus the identity")
+
+
+# ---------------------------------------------------------------------------------------------------------- C17: CFG.to_bytes
+class _EncTok:
+    """The block of UTF-8 bytes of one terminal, in order, treated as one opaque generic element (parametricity: the code may
+    iterate the block, copy it with list() and splice it with extend(); any other use is out of the subset)."""
+
+    def __init__(self, x):
+        self.x = x
+
+    def __repr__(self):
+        return f"<utf8 {self.x}>"
+
+
+class _EncList:
+    def __init__(self, tok):
+        self.tok = tok
+
+    def __pyvc_iter__(self, interp):
+        return [self.tok]
+
+    def __iter__(self):          # list.extend(block) / list(block) performed by the interpreter's native list
+        return iter([self.tok])
+
+
+def c17_cfg_to_bytes(run):
+    """C17/cfg.CFG.to_bytes/rule-homomorphism: for a generic rule (w, h, b_1..b_k), k = 0..3, of a generic grammar, on every path that
+    does not raise ValueError (non-string terminal: documented), the result receives exactly one rule, unconditionally, with the same
+    weight object and head and with body  t_1 .. t_k,  t_j = utf8(b_j) if b_j is a terminal else b_j ;  every utf8 block that occurs
+    in a body is added to the new alphabet; start symbol and semiring are those of the input.  Weights of rules that coincide after
+    encoding therefore accumulate in the rule multiset (CFG.add appends), which is what 'total weight of the symbol strings whose
+    encoding it is' needs (T-UTF8: utf8 is injective on strings of characters, assumed)."""
+    from props.C07_proved import Harness
+    name = "C17/cfg.CFG.to_bytes/rule-homomorphism"
+    h = Harness("CFG.to_bytes", lengths=[0, 1, 2, 3])
+    pairs = [Harness("CFG.to_bytes", lengths=[k, k], together=True) for k in (0, 1, 2)]
+    run.function_under_contract("genlm.grammar.cfg.CFG.to_bytes", source.sha(h.fn))
+    isstr = z3.Function("is_str", S.SYM, z3.BoolSort())
+    state = {}
+
+    def hooks(it, gs, fn, genv):
+        toks = {}
+
+        def enc(i2, node, env):
+            x = i2.eval(node.func.value, env)
+            key = str(I.zexpr(x))
+            if key not in toks:
+                toks[key] = _EncTok(key)
+            return _EncList(toks[key])
+        state["toks"] = toks
+        n_enc = 0
+        for n in ast.walk(fn):
+            if isinstance(n, ast.Call) and isinstance(n.func, ast.Attribute) and n.func.attr == "encode":
+                it.expr_hooks[id(n)] = enc
+                n_enc += 1
+        if n_enc == 0:
+            raise I.OutOfSubset("no .encode() call found")
+
+        def isinst(i2, a, k):
+            v, c = a
+            if isinstance(v, I.Z) and c is str:
+                return I.Z(isstr(v.e))
+            return I._b_isinstance(i2, a, k)
+        genv.vars["isinstance"] = I.Native("isinstance", isinst)
+        genv.vars["list"] = I.Native("list", lambda i2, a, k: _EncList(a[0].tok) if a and isinstance(a[0], _EncList) else I._b_list(i2, a, k))
+
+    def make_args(it, gs):
+        return [], {}
+
+    def post(it, gs, ret):
+        return ret
+
+    try:
+        try:
+            results = h.run(make_args, post, hooks)
+        except I.OutOfSubset as e:
+            if "carries state" not in str(e):
+                raise
+            results = []       # the one-rule abstraction does not apply: decide on the two-rule executions alone
+            pairs.append(Harness("CFG.to_bytes", lengths=[1, 2], together=True))
+        # two generic rules in one execution: an iteration must not interfere with another one (rules that produce the same
+        # head and body are both kept)
+        for hp in pairs:
+            results += hp.run(make_args, post, hooks)
+    except (I.OutOfSubset, I.PyRaise) as e:
+        run.obligation(name, "out-of-subset", detail=str(e))
+        return
+    sites, why = 0, None
+    work = []
+    for path, r in results:
+        gs = r["gs"]
+        gens = list(gs.generic)
+        if "raised" in r:
+            if r["raised"].startswith("ValueError") and gens:
+                # allowed exactly when some terminal of a body is not a string
+                alts = [z3.And(gs.V.mem(I.zexpr(gen.body.at(None, j))), z3.Not(isstr(I.zexpr(gen.body.at(None, j)))))
+                        for gen in gens for j in range(gen.body.length())]
+                bad = z3.Or(*alts) if alts else z3.BoolVal(False)
+                if smt.prove(list(path.pc), bad)["verdict"] == "proved":
+                    continue
+            why = "raises " + r["raised"]
+            break
+        ret = r["goals"]
+        if not isinstance(ret, G.GramRec):
+            why = "does not return a spawned grammar"
+            break
+        if len(ret.adds) != len(gens):
+            why = f"{len(ret.adds)} rules emitted for {len(gens)} input rules (path {path.taken})"
+            break
+        for gen, a in zip(gens, ret.adds):
+            work.append((path, gs, ret, gen, a))
+    for path, gs, ret, gen, a in ([] if why else work):
+        sites += 1
+        k = gen.body.length()
+        goals = [z3.BoolVal(a["w"] is gen.w), I.zexpr(a["head"]) == gen.head.e, z3.BoolVal(ret.f["S"] is gs.S), z3.BoolVal(ret.f["R"] is gs.R)]
+        n = a["body"].length()
+        if not isinstance(n, int) or n != k:
+            why = f"body of length {n} for a rule of length {k}"
+            break
+        newV = ret.f["V"]
+        for j in range(k):
+            bj = gen.body.at(None, j)
+            tj = a["body"].at(None, j)
+            is_t = gs.V.mem(I.zexpr(bj))
+            if isinstance(tj, _EncTok):
+                goals.append(is_t)
+                goals.append(z3.BoolVal(tj.x == str(I.zexpr(bj))))
+                goals.append(z3.BoolVal(isinstance(newV, set) and tj in newV))
+            else:
+                goals.append(z3.Not(is_t))
+                goals.append(I.zexpr(tj) == I.zexpr(bj))
+        for g in goals:
+            if smt.prove(list(path.pc), g)["verdict"] != "proved":
+                why = f"emitted rule differs from the specified one: {str(z3.simplify(g))[:120]}"
+                break
+        if why:
+            break
+    if why:
+        replay = dict(replayed=False, why=why, hint="rules A -> 'ab' and A -> 'a' 'b' coincide after encoding; their weights must add up")
+        try:
+            # replay on the real code: three rules whose encodings coincide (one exact duplicate, one spelled-out variant)
+            from genlm.grammar.cfg import CFG as RealCFG
+            from genlm.grammar.semiring import Float
+            g = RealCFG(R=Float, S="S", V={"ab", "a", "b", "é"})
+            for w, body in ((0.25, ("ab",)), (0.5, ("ab",)), (0.125, ("a", "b")), (0.0625, ("é", "S"))):
+                g.add(w, "S", *body)
+            gb = g.to_bytes()
+            got = sorted((float(r.w), tuple(r.body)) for r in gb.rules)
+            want = sorted([(0.25, (97, 98)), (0.5, (97, 98)), (0.125, (97, 98)), (0.0625, (195, 169, "S"))])
+            replay.update(input="S -> 'ab' [0.25] | 'ab' [0.5] | 'a' 'b' [0.125] | 'é' S [0.0625]", got=repr(got), want=repr(want),
+                          got_V=repr(sorted(gb.V)), want_V="[97, 98, 169, 195]")
+            replay["replayed"] = got != want or sorted(gb.V) != [97, 98, 169, 195]
+        except Exception as e:  # noqa: BLE001
+            replay["native_error"] = repr(e)
+            replay["replayed"] = True
+        run.obligation(name, "refuted", backend="pyvc+z3", detail=why, replay=replay, signature="cfg.CFG.to_bytes:rule-homomorphism")
+    elif sites < 8:
+        run.obligation(name, "out-of-subset", detail=f"vacuous: only {sites} emitted rules")
+    else:
+        run.obligation(name, "proved", backend="pyvc+z3", detail=f"{len(results)} paths over arity 0..3 x terminal/nonterminal x str/non-str; {sites} emitted rules")
